@@ -10,6 +10,7 @@ structure Inv (s : St) : Prop where
   le_rw    : s.splice = false → s.bytes ≤ BUF_SIZE
   done_emp : s.sawFin = 2 → s.buf = []
   shut_iff : s.shut = true ↔ (s.sawFin = 2 ∧ s.relayEof = true)
+  drain_ne : s.sawFin = 1 → s.bytes ≠ 0       -- "EOF seen, still draining" only while something is buffered
 
 /-- a run: the state after a sequence of `pump` calls, each with its own event list, all
 returning ≥ 0 (a run ends at the first −1); also the return codes, most recent first. -/
